@@ -15,9 +15,11 @@ import (
 )
 
 // reqmp <nfields> (k v)… <nfiles> (field filename pieces)…
-//   builds a multipart upload through the client API (SetMultipartFormData, SetFileReader with a reader that hands
-//   the content out in the given pieces), serialises it with the real req.Write and decodes the wire bytes twice:
-//   with net/http (N) and with hertz's own server-side reader (H).
+//
+//	builds a multipart upload through the client API (SetMultipartFormData, SetFileReader with a reader that hands
+//	the content out in the given pieces), serialises it with the real req.Write and decodes the wire bytes twice:
+//	with net/http (N) and with hertz's own server-side reader (H).
+//
 // -> err N <decoded…> H <decoded…>   where decoded = ok nfields (k v)… nfiles (field filename content)…, sorted by key
 func opReqMp(a []string) []string {
 	var r protocol.Request
